@@ -8,6 +8,8 @@ start = s.index('### 9.4 Which checks catch which deliberate changes')
 end = s.index('### 9.5 ') if '### 9.5 ' in s else len(s)
 rows = []
 for d in sorted(glob.glob(os.path.join(HERE, 'seeded', '*/'))):
+    if not os.path.exists(d + 'meta.json'):
+        continue  # a seed being processed right now
     m = json.load(open(d + 'meta.json'))
     name = os.path.basename(d.rstrip('/'))
     out = open(d + 'check_output.txt').read() if os.path.exists(d + 'check_output.txt') else ''
